@@ -175,6 +175,29 @@ pub fn run(ctx: &Ctx) -> Report {
     rep.sections.push(sec);
 
     let mut sec = Section::new(
+        &format!("spi-frame-buffers[{}]", ctx.variant),
+        "SPI staging buffers of 65535 .. 200001 bytes (half-frame / full-frame buffers) with full-screen clear, fill_contiguous and a large set_pixels burst on 240x320 and 320x480 displays: bursts of b bytes in at most floor(b/usable)+1 transactions, and the picture is right",
+    );
+    sec.exhaustive = true;
+    let mut cases = Vec::new();
+    for model in [crate::models::ModelId::ST7789, crate::models::ModelId::ILI9488Rgb666] {
+        for buf in [65_535u32, 65_536, 65_537, 70_000, 76_800, 131_072, 153_600, 200_001] {
+            let cfg = Config::full(model, Transport::Spi { buf });
+            let (w, h) = (cfg.w as u32, cfg.h as u32);
+            cases.push(ProgCase { cfg: cfg.clone(), ops: vec![DrawOp::Clear { seed: 3 }] });
+            cases.push(ProgCase { cfg: cfg.clone(), ops: vec![DrawOp::FillContiguous { rect: Rect { x: 0, y: 0, w, h }, len: StreamLen::Infinite, seed: 4 }] });
+            cases.push(ProgCase { cfg: cfg.clone(), ops: vec![DrawOp::FillSolid { rect: Rect { x: 0, y: 0, w, h: h / 2 + 7 }, seed: 5 }, DrawOp::FillSolid { rect: Rect { x: 3, y: 3, w: 3, h: 3 }, seed: 6 }, DrawOp::FillSolid { rect: Rect { x: 0, y: 0, w, h }, seed: 6 }] });
+        }
+    }
+    run_enumerated(&mut sec, cases, ctx.workers, |c, info| {
+        info.nontrivial = true;
+        check(c, info)?;
+        // and the picture is right
+        super::c01::check(c, &mut CaseInfo::default())
+    }, sig);
+    rep.sections.push(sec);
+
+    let mut sec = Section::new(
         &format!("fills[{}]", ctx.variant),
         "C01 and C02 programs: fill_solid / fill_contiguous / clear use exactly one window set-up when the intersection is non-empty, at most one otherwise; SPI transaction bound",
     );
